@@ -260,6 +260,16 @@ func (m *roaManager) handleRTRMsg(client *roaClient, state *oc.RpkiServerState, 
 				}
 			} else {
 				m.table.Delete(roa)
+				// also cancel the same ROA announced earlier in
+				// this response and not added to the table yet
+				pending := client.pendingROAs[:0]
+				for _, p := range client.pendingROAs {
+					if p.Family == roa.Family && p.Network.String() == roa.Network.String() && p.Equal(roa) {
+						continue
+					}
+					pending = append(pending, p)
+				}
+				client.pendingROAs = pending
 			}
 		case *rtr.RTREndOfData:
 			received.EndOfData++
